@@ -880,13 +880,24 @@ func (t *streamableHTTPClientTransport) sendResponseToServer(response interface{
 		return
 	}
 
-	ctx, cancel := context.WithTimeout(context.Background(), 30*time.Second)
+	// The answer belongs to the listening stream the request arrived on: it carries the context
+	// values of that stream (the handshake's), but not its cancellation.
+	parent := context.Background()
+	t.getSSEConn.mutex.Lock()
+	if t.getSSEConn.ctx != nil {
+		parent = icontext.WithoutCancel(t.getSSEConn.ctx)
+	}
+	t.getSSEConn.mutex.Unlock()
+	ctx, cancel := context.WithTimeout(parent, 30*time.Second)
 	defer cancel()
 
 	httpReq, err := http.NewRequestWithContext(ctx, http.MethodPost, t.serverURL.String(), bytes.NewReader(respBytes))
 	if err != nil {
 		t.logger.Errorf("Error creating HTTP request for response: %v", err)
 		return
+	}
+	if len(t.path) != 0 {
+		httpReq.URL.Path = t.path
 	}
 
 	httpReq.Header.Set("Content-Type", "application/json")
@@ -901,6 +912,14 @@ func (t *streamableHTTPClientTransport) sendResponseToServer(response interface{
 	// Add session ID if available
 	if t.sessionID != "" {
 		httpReq.Header.Set(httputil.SessionIDHeader, t.sessionID) // Use correct MCP protocol header: Mcp-Session-Id.
+	}
+
+	// Apply HTTP before-request functions.
+	if t.client != nil {
+		if err := t.client.applyHTTPBeforeRequest(ctx, httpReq); err != nil {
+			t.logger.Errorf("HTTP before-request failed for response to server: %v", err)
+			return
+		}
 	}
 
 	var resp *http.Response
@@ -948,8 +967,15 @@ func (t *streamableHTTPClientTransport) terminateSession(ctx context.Context) er
 		}
 	}
 
-	// Send request
-	httpResp, err := t.httpClient.Do(httpReq)
+	// Apply HTTP before-request functions.
+	if t.client != nil {
+		if err := t.client.applyHTTPBeforeRequest(ctx, httpReq); err != nil {
+			return fmt.Errorf("HTTP before-request failed: %w", err)
+		}
+	}
+
+	// Send request using the handler
+	httpResp, err := t.httpReqHandler.Handle(ctx, t.httpClient, httpReq)
 	if err != nil {
 		return fmt.Errorf("HTTP request failed: %w", err)
 	}
